@@ -261,6 +261,7 @@ def reference(lib):
              "nested_spelling": False, "mod_levels": {}, "depth": 0, "instances": {}, "inherited": 0, "aliases": 0, "arrays": 0,
              "multi_extends": 0, "nested_class_use": 0, "enclosing_extends": 0}
     pending = []        # (kind, where, expr, env) resolved after all variables are known
+    decl_seen = {}
 
     def elementary(node, tref, declaring):
         """-> (builtin name, alias modifier tree innermost-first) or None when tref is a structured class"""
@@ -313,6 +314,15 @@ def reference(lib):
 
         def component(n, s, mods):
             name = prefix + [s["name"]]
+            # an element inherited more than once (diamond, or two bases declaring it identically) counts once
+            sig = json.dumps([s["type"], s.get("prefixes"), s.get("dims"), s.get("mods"), s.get("value")], sort_keys=True)
+            key_ = ".".join(name)
+            if key_ in decl_seen:
+                if decl_seen[key_] == sig:
+                    flags["repeated_elements"] = flags.get("repeated_elements", 0) + 1
+                    return
+                raise Reject("conflicting declarations of %s" % key_)
+            decl_seen[key_] = sig
             decl = mod_tree(s.get("mods", []), prefix)
             if s.get("value") is not None:
                 decl["value"] = (s["value"], prefix, False)
@@ -405,9 +415,28 @@ def reference(lib):
             return ["op", e[1], [resolve(a, env, where) for a in e[2]]]
         return list(e)
 
+    sp_ = flags["shadow_paths"]
+    shadow_eqs, shadow_images, shadow_raw = set(), set(), set()
+
+    def image(e, env):
+        """the equation as the implementation leaves it when the shadowed component is no leaf: references to it
+        stay as written, the others are renamed"""
+        if e[0] == "ref":
+            flat = ".".join(env + e[1])
+            if under(flat, sp_) or any(p.startswith(flat + ".") for p in sp_):
+                shadow_raw.add(".".join(e[1]))
+                return ["ref", ".".join(e[1]), list(e[2])]
+            return ["ref", flat, list(e[2])]
+        if e[0] == "op":
+            return ["op", e[1], [image(a, env) for a in e[2]]]
+        return list(e)
+
     for kind, where, e, env in pending:
         if kind == "eq":
             eqs.append([resolve(e[0], env, "equation"), resolve(e[1], env, "equation")])
+            if sp_ and any(under(".".join(env + x[1]), sp_) for x in raw_refs(e[0], []) + raw_refs(e[1], [])):
+                shadow_eqs.add(json.dumps(eqs[-1]))
+                shadow_images.add(json.dumps([image(e[0], env), image(e[1], env)]))
         else:
             r = resolve(e, env, "modification of %s.%s" % where)
             variables[where[0]]["attrs"][where[1]] = r
@@ -430,6 +459,8 @@ def reference(lib):
             eqs.append([["ref", name, []], v["attrs"].pop("value")])
         if v["attrs"].get("fixed") == ["bool", False]:
             del v["attrs"]["fixed"]
+    flags["shadow_eqs"] = shadow_eqs | shadow_images
+    flags["shadow_raw"] = shadow_raw
     return {"vars": variables, "order": order, "eqs": eqs, "flags": flags}
 
 
@@ -529,23 +560,21 @@ def compare(ref, res):
     want = sorted(json.dumps(e) for e in ref["eqs"])
     got = sorted(json.dumps(e) for e in eqs)
     if want != got:
-        for e in want:
-            if e not in got or want.count(e) > got.count(e):
+        for e in sorted(set(want)):
+            if want.count(e) > got.count(e):
                 ee = json.loads(e)
                 diffs.append((eq_owner(ee), "equation %s = %s is missing from the flat model" % (r_flat(ee[0]), r_flat(ee[1])),
-                              refs_of(ee[0], []) + refs_of(ee[1], [])))
-                break
-        for e in got:
-            if e not in want or got.count(e) > want.count(e):
+                              refs_of(ee[0], []) + refs_of(ee[1], []), "eq", e))
+        for e in sorted(set(got)):
+            if got.count(e) > want.count(e):
                 ee = json.loads(e)
                 diffs.append((eq_owner(ee), "flat model has the equation %s = %s that no instance contains"
-                              % (r_flat(ee[0]), r_flat(ee[1])), refs_of(ee[0], []) + refs_of(ee[1], [])))
-                break
+                              % (r_flat(ee[0]), r_flat(ee[1])), refs_of(ee[0], []) + refs_of(ee[1], []), "eq", e))
     for e in eqs:
         for r in refs_of(e[0], []) + refs_of(e[1], []):
             if r not in syms:
                 diffs.append((eq_owner(e), "equation refers to %s which is no flat variable" % r,
-                              refs_of(e[0], []) + refs_of(e[1], [])))
+                              refs_of(e[0], []) + refs_of(e[1], []), "eq", json.dumps(e)))
     return diffs
 
 
@@ -602,7 +631,8 @@ def judge_all(lib, res):
         where, msg = d[0], d[1]
         involved = [where] + (list(d[2]) if len(d) > 2 else [])
         sparents = [".".join(x.split(".")[:-1]) for x in fl["shadow_paths"]]
-        if any(under(w, fl["shadow_paths"]) for w in involved) or (fl["shadow_paths"] and ("un-flattened" in msg or "no flat variable" in msg
+        if (len(d) > 4 and d[4] in fl["shadow_eqs"]) or (where in fl["shadow_raw"] and "un-flattened" in msg) or \
+                any(under(w, fl["shadow_paths"]) for w in involved) or (fl["shadow_paths"] and ("un-flattened" in msg or "no flat variable" in msg
                                       or any(w not in ref["vars"] for w in involved[1:]))) or \
                 (len(d) == 3 and any(q == "" or any(under(w, [q]) for w in involved) for q in sparents)):
             # the shadowed component itself, or an equation of the instance that declares it
@@ -610,7 +640,7 @@ def judge_all(lib, res):
         elif any(under(w, fl["late_paths"]) for w in involved) or \
                 (fl["late_paths"] and ("un-flattened" in msg or "no flat variable" in msg
                                        or any(w not in ref["vars"] for w in involved[1:]))) or \
-                (len(d) == 3 and any(q == "" or any(under(w, [q]) for w in involved)
+                ((len(d) == 3 or (len(d) > 3 and d[3] == "eq")) and any(q == "" or any(under(w, [q]) for w in involved)
                                      for q in [".".join(x.split(".")[:-1]) for x in fl["late_paths"]])):
             tag = KNOWN_LATE
         elif where in fl["dotted_attr"]:
@@ -929,9 +959,11 @@ def can_extend(info, base):
 
 def gen_case(rng, shape=None):
     shape = shape or rng.choice(["plain", "plain", "extends", "extends", "package", "nested", "shadow", "deep",
-                                 "inherit-nested"])
+                                 "inherit-nested", "diamond"])
     if shape == "inherit-nested":
         return gen_inherit_nested(rng)
+    if shape == "diamond":
+        return gen_diamond(rng)
     top_classes, pkg_classes = [], []
     infos, aliases = [], []
     # type aliases
@@ -1067,6 +1099,62 @@ def gen_inherit_nested(rng):
     return lib
 
 
+def gen_diamond(rng):
+    """the same component reaches a class more than once: diamond inheritance (A extends B and C, both extend D) or
+    two bases declaring a component identically; anywhere in the instance hierarchy"""
+    classes = []
+    dsyms = [mk_sym("x", ["Real"], dims=[2] if rng.random() < 0.3 else [])]
+    if rng.random() < 0.6:
+        dsyms.append(mk_sym("k", ["Real"], ["parameter"], value=num(rng.randint(1, 9))))
+    structured = rng.random() < 0.4
+    if structured:
+        classes.append(mk_class("S", symbols=[mk_sym("v", ["Real"])], eqs=[[ref("v"), num(2)]]))
+        dsyms.append(mk_sym("s", ["S"]))
+    xr = ref("x", idx=[1]) if dsyms[0]["dims"] else ref("x")
+    D = mk_class("D", symbols=dsyms, eqs=[[xr, num(rng.randint(1, 9))]] + ([[ref("s", "v"), xr]] if structured and rng.random() < 0.5 else []))
+    same_decl = rng.random() < 0.35
+    w = mk_sym("w", ["Real"], mods=[mk_mod(["start"], value=num(3))] if rng.random() < 0.5 else [])
+    bsyms = [mk_sym("yb", ["Real"])] + ([dict(w)] if same_decl else [])
+    csyms = [mk_sym("yc", ["Real"])] + ([json.loads(json.dumps(w))] if same_decl else [])
+    kind = rng.choice(["diamond", "diamond", "samedecl", "deep"])
+    if kind == "samedecl":
+        B = mk_class("B", symbols=[mk_sym("yb", ["Real"]), dict(w)], eqs=[[ref("yb"), ref("w")]])
+        C = mk_class("C", symbols=[mk_sym("yc", ["Real"]), json.loads(json.dumps(w))], eqs=[[ref("yc"), num(1)]])
+        classes += [B, C]
+    else:
+        B = mk_class("B", extends=[{"base": ["D"], "mods": []}], symbols=bsyms, eqs=[[ref("yb"), xr]])
+        mid = "D"
+        if kind == "deep":
+            classes.append(mk_class("D2", extends=[{"base": ["D"], "mods": []}], symbols=[mk_sym("d2", ["Real"])]))
+            mid = "D2"
+        C = mk_class("C", extends=[{"base": [mid], "mods": []}], symbols=csyms, eqs=[[ref("yc"), num(1)]])
+        classes += [D, B, C]
+    ext = [{"base": ["B"], "mods": []}, {"base": ["C"], "mods": []}]
+    if rng.random() < 0.5:
+        ext.reverse()
+    A = mk_class("A", extends=ext, symbols=[mk_sym("z", ["Real"])], eqs=[[ref("z"), ["op", "+", [ref("yb"), ref("yc")]]]])
+    place = rng.choice(["top", "component", "extends", "both"])
+    rng.shuffle(classes)
+    if place == "top":
+        A["name"] = "M"
+        classes.append(A)
+    else:
+        classes.append(A)
+        msyms = [mk_sym("u", ["Real"], ["input"])]
+        mext = []
+        meqs = []
+        if place in ("component", "both"):
+            msyms += [mk_sym("a1", ["A"])] + ([mk_sym("a2", ["A"])] if rng.random() < 0.5 else [])
+            meqs.append([ref("a1", "z"), ref("u")])
+        if place in ("extends", "both"):
+            mext = [{"base": ["A"], "mods": []}]
+            meqs.append([ref("z"), ref("u")])
+        classes.append(mk_class("M", extends=mext, symbols=msyms, eqs=meqs))
+    lib = {"classes": classes, "top": "M", "shape": "diamond"}
+    lib["text"] = render(lib)
+    return lib
+
+
 # hand-written corner cases (always run)
 def fixed_cases():
     out = []
@@ -1177,7 +1265,7 @@ def run(ctx):
                              {"flatten_extends", "build_instance_tree", "flatten_symbols", "ComponentRefFlattener"})
     ctx.notes["source_fingerprint"] = {"tree.py:flatten_extends+build_instance_tree+flatten_symbols+ComponentRefFlattener": fp}
     n_rand = ctx.scaled(260, 5000)
-    shapes = ["plain", "extends", "package", "nested", "shadow", "deep", "inherit-nested"]
+    shapes = ["plain", "extends", "package", "nested", "shadow", "deep", "inherit-nested", "diamond"]
     libs = fixed_cases()
     n_fixed = len(libs)
     for i in range(n_rand):
